@@ -2,7 +2,7 @@
 import random
 from fractions import Fraction
 from . import core, sketchcheck
-from .sketchgen import Builder, mapspec, STORES, rand_values
+from .sketchgen import Builder, mapspec, STORES, rand_values, spec_list
 from .core import f2h
 
 KINDS = STORES + ["pag", "dense", "low:4", "high:4", "low:32", "high:64"]
@@ -53,6 +53,11 @@ def build(rng, facts, name):
         # (memory retained by Clear must not be shared), and is compared with a fresh twin of its own
         if cc:
             history(rng, b, [cc, fcc], spec, rng.randint(1, 6), lo2, hi2)
+        # the first weights after Clear may arrive through a merge from a sketch of the same kinds (the same-kind fast paths of the stores)
+        if rng.random() < 0.4:
+            b.knew("sd", spec, kp, kn, exact)
+            for v in rand_values(rng, rng.choice([1, 3, 8]), 1, 2, zeros=0): b.kadd("sd", v)
+            b.kmerge("c", "sd"); b.kmerge(fresh, "sd")
         # history after Clear on the cleared sketch and on its fresh twin: narrower / earlier ranges
         history(rng, b, ["c", fresh], spec, rng.randint(2, 20), rng.choice([-1, 0, -2]), rng.choice([0, 1, 2]))
         if cc:
@@ -68,7 +73,7 @@ def build(rng, facts, name):
 def run(tier, seed):
     rng = random.Random(seed)
     ok, log = core.build_vrun()
-    specs = [mapspec(rng)[0] for _ in range(10 if tier == "quick" else 40)]
+    specs = spec_list(rng, 10 if tier == "quick" else 40)
     facts = sketchcheck.learn_specs("C15", specs) if ok else {}
     builders = [build(rng, facts, "k%d" % i) for i in range(300 if tier == "quick" else 8000)] if facts else []
     return sketchcheck.run_sketch_property(
